@@ -352,6 +352,14 @@ def dump(b):
     idx = {id(o): i for i, o in enumerate(b.universe)}
     ridx = {id(r): i for i, r in enumerate(b.resources)}
     out = {'resources': [[idx.get(id(o), '?') for o in r.contents] for r in b.resources], 'objects': []}
+    # where the resources live and what their resource set knows (a save must leave that as it found it)
+    from pyecore.resources import global_registry
+    out['environment'] = {
+        'resource uris': [getattr(getattr(r, 'uri', None), 'plain', None) for r in b.resources],
+        'rset.resources': [(k, ridx.get(id(v), 'other')) for k, v in b.rset.resources.items()],
+        'rset.metamodel_registry': sorted(map(str, b.rset.metamodel_registry.maps[0])),
+        'global_registry': sorted(map(str, global_registry)),
+    }
     for o in b.universe:
         feats = []
         for f in sorted(o.eClass.eAllStructuralFeatures(), key=lambda f: f.name):
@@ -382,6 +390,9 @@ def ids_of(b):
 
 
 def first_difference(a, b_):
+    for k, v in a.get('environment', {}).items():
+        if v != b_.get('environment', {}).get(k):
+            return f"{k}: {v} -> {b_.get('environment', {}).get(k)}"
     if a['resources'] != b_['resources']:
         return f"resource contents {a['resources']} -> {b_['resources']}"
     for i, (x, y) in enumerate(zip(a['objects'], b_['objects'])):
